@@ -167,6 +167,8 @@ func checkC03(w *World) {
 		}
 	}
 	w.floor(P, "R03.4", 10)
+	// abbreviated steps (@, .., //, implicit child) collect only through the normalising selectors
+	w.include(P, "C01", "R01.4")
 }
 
 // dedupeShape: fn(slice) returns a slice to which elements of the input are appended under Pos() != Pos()
